@@ -166,6 +166,9 @@ def walk_local(node, include_self=True):
 def body_walk(func):
     """All nodes of a function's own body (nested defs not entered)."""
     for st in func.body:
+        if isinstance(st, FUNC_TYPES + (ast.ClassDef,)):
+            yield st
+            continue
         for n in walk_local(st):
             yield n
 
